@@ -22,6 +22,11 @@ Clauses of the property and where they are proved:
  4. an expired attribute is gone after the next block begins → `expired_gone_after_begin`
  5. name deletion removes exactly the attributes under the name → `deleteName_purges_exactly`
  6. the checker run on the implementation is these conclusions → `verdict_ok`
+ 7. names spelt non-normalised (mixed case, white space; `SOp` / `stepS` / `runS`): an accepted
+    message does what the message with the normalised name does (`stepS_refines`,
+    `runS_reachable`), so every clause holds with "the owner of the NORMALISED name"
+    (`only_owner_of_normalised_name_writes`, `spelled_history_satisfies_property`,
+    `verdict_ok_spelled`); a misspelt delete is never accepted (`misspelt_delete_refused`).
 -/
 import PvProofs.Lemmas.AttrStep
 import PvProofs.Lemmas.AttrExact
@@ -481,6 +486,154 @@ theorem on_witnesses :
     (run s0 a).recs = [⟨"B", "kyc.vf", "1", .int, some 200⟩] ∧ (run s0 a).queue = [(200, ("B", "kyc.vf", "1"))] ∧
     (run s0 b).recs = [⟨"B", "kyc.vf", "1", .string, none⟩] ∧ (run s0 b).queue = [] ∧
     (run s0 c).recs = [⟨"B", "kyc.vf", "2", .string, none⟩] ∧ (run s0 c).queue = [] := by
+  decide
+
+/-! ## Non-normalised spellings of the name (`SOp`, `stepS`, `runS`)
+
+A message may spell its name in mixed case or with white space around the name / a segment
+(`ValidateBasic` accepts all of these).  `x.op` is the message with the NORMALISED name; the
+clauses are judged on it: "the owner" is the owner of the normalised name. -/
+
+/-- A message that spells the normalised name itself is the plain message. -/
+theorem stepS_exact (s : State) (sp : Spelling) (op : Op) (h : sp.exact = true) :
+    stepS s ⟨sp, op⟩ = step s op := by
+  simp [stepS, h]
+
+/-- Refinement: whatever the spelling, an ACCEPTED message does exactly what the message with
+the normalised name does (a spelling can only turn an accepted message into a refused one). -/
+theorem stepS_refines {s s' : State} {x : SOp} (h : stepS s x = .ok s') : step s x.op = .ok s' := by
+  obtain ⟨sp, op⟩ := x
+  unfold stepS at h
+  by_cases he : sp.exact = true
+  · simpa [he] using h
+  · simp only [he, Bool.false_eq_true, if_false] at h
+    cases op with
+    | add _ _ => exact h
+    | updateExp _ _ _ _ _ => exact h
+    | deleteName _ _ => exact h
+    | bind _ _ => exact h
+    | beginBlock _ => exact h
+    | update sg addr name ov ot nv nt =>
+      simp only at h
+      split at h
+      · exact h
+      · unfold updateAttributeKeyMiss at h
+        repeat (split at h <;> try cases h)
+    | delete sg addr name =>
+      simp only at h
+      split at h
+      · cases h
+      · unfold deleteAttributeMisspelt at h
+        repeat (split at h <;> try cases h)
+    | deleteDistinct sg addr name v =>
+      simp only at h
+      split at h
+      · cases h
+      · unfold deleteAttributeMisspelt at h
+        repeat (split at h <;> try cases h)
+    | transfer au name o =>
+      simp only at h
+      split at h
+      · exact h
+      · cases h
+
+/-- The narrow fact behind "deleted only by the owner of the normalised name": a delete /
+delete-distinct message whose name is not spelt exactly as stored is never accepted, whoever
+signs it — `DeleteAttribute` skips the owner check when the raw name does not resolve, and only
+the exact comparison `attr.Name == name` keeps the attributes of the normalised name safe. -/
+theorem misspelt_delete_refused (s s' : State) (sp : Spelling) (hsp : sp.exact = false)
+    (sg addr name v : String) :
+    stepS s ⟨sp, .delete sg addr name⟩ ≠ .ok s' ∧ stepS s ⟨sp, .deleteDistinct sg addr name v⟩ ≠ .ok s' := by
+  constructor <;>
+  · intro h
+    simp only [stepS, hsp, Bool.false_eq_true, if_false] at h
+    split at h
+    · cases h
+    · unfold deleteAttributeMisspelt at h
+      repeat (split at h <;> try cases h)
+
+theorem applyS_eq (s : State) (x : SOp) : applyS s x = s ∨ applyS s x = apply s x.op := by
+  unfold applyS
+  cases hx : stepS s x with
+  | error e => left; rfl
+  | ok s' => right; simp [apply, stepS_refines hx]
+
+/-- Every state reached by a history of arbitrarily spelt messages is reached by a history of
+messages with normalised names: all theorems above about `run s0 ops` hold of `runS s0 xs`. -/
+theorem runS_reachable (s0 : State) (xs : List SOp) : ∃ ops, runS s0 xs = run s0 ops := by
+  induction xs generalizing s0 with
+  | nil => exact ⟨[], rfl⟩
+  | cons x xs ih =>
+    obtain ⟨ops, h⟩ := ih (applyS s0 x)
+    rcases applyS_eq s0 x with e | e
+    · refine ⟨ops, ?_⟩
+      show runS (applyS s0 x) xs = run s0 ops
+      rw [h, e]
+    · refine ⟨x.op :: ops, ?_⟩
+      show runS (applyS s0 x) xs = run (apply s0 x.op) ops
+      rw [h, e]
+
+theorem invariants_hold_spelled (s0 : State) (h0 : Init s0) (xs : List SOp) : Inv (runS s0 xs) := by
+  obtain ⟨ops, h⟩ := runS_reachable s0 xs
+  rw [h]; exact invariants_hold s0 h0 ops
+
+/-- Clause 1 for arbitrary spellings, all histories: every accepted add / update /
+update-expiration / delete / delete-distinct message is signed by the address the NORMALISED
+name resolves to at that moment. -/
+theorem only_owner_of_normalised_name_writes (s0 : State) (h0 : Init s0) (xs : List SOp) (x : SOp)
+    (s' : State) (h : stepS (runS s0 xs) x = .ok s') : writerIsOwner (runS s0 xs) x.op = true :=
+  only_name_owner_writes_inv (invariants_hold_spelled s0 h0 xs) (stepS_refines h)
+
+/-- Clauses 2-4 for arbitrary spellings, all histories: after every accepted message the lookup
+is complete, every new record is what the owner of the normalised name signed, every record
+that is gone was deleted by the owner of its (normalised) name / with its name / by its stored
+expiration, and after a block begins nothing expired is left. -/
+theorem spelled_history_satisfies_property (s0 : State) (h0 : Init s0) (xs : List SOp) (x : SOp)
+    (s' : State) (h : stepS (runS s0 xs) x = .ok s') :
+    lookupComplete s' = true ∧ appearancesJustified (runS s0 xs) x.op s' = true ∧
+      disappearancesJustified (runS s0 xs) x.op s' = true ∧
+      (∀ t, x.op = .beginBlock t → expiredGone t s' = true) := by
+  have hi := invariants_hold_spelled s0 h0 xs
+  have hs := stepS_refines h
+  refine ⟨lookupComplete_of_inv (step_inv hi hs), writes_are_what_the_owner_signed hi hs,
+    disappears_only_if_inv hi hs, ?_⟩
+  intro t ht
+  rw [ht] at hs
+  exact expired_gone_after_begin_inv hi hs
+
+/-- The checker (which judges the message by its normalised name) answers `ok` on every
+transition of the model, whatever the spelling. -/
+theorem verdict_ok_spelled {s s' : State} {x : SOp} (hi : Inv s) (h : stepS s x = .ok s') :
+    verdict s x.op true s' = "ok" :=
+  verdict_ok hi (stepS_refines h)
+
+/-- The error class a message is refused with (`none` = accepted). -/
+def refusal (r : Except Err State) : Option Err :=
+  match r with
+  | .error e => some e
+  | .ok _ => none
+
+/-- Spellings at work: `A` owns `kyc.vf`, `B` holds an attribute.  The stranger `C` is refused
+with the normalised name (`perm`), with a white-space spelling (the name key still hits: `perm`)
+and with a mixed-case spelling (owner check skipped, nothing matches: `notfound`); the owner's
+own mixed-case delete is refused too; the owner's mixed-case add / update are accepted and store
+the normalised name; with white space inside the name the update finds nothing.  On the checker,
+an implementation that lets `C`'s mixed-case delete through is reported. -/
+theorem spelling_witnesses :
+    let s0 : State := { now := 100, accts := ["A", "C"], names := [("kyc.vf", "A")] }
+    let mixed : Spelling := { exact := false, nameKeyHit := false, attrKeyHit := true }
+    let outer : Spelling := { exact := false, nameKeyHit := true, attrKeyHit := true }
+    let inner : Spelling := { exact := false, nameKeyHit := true, attrKeyHit := false }
+    let s := runS s0 [⟨mixed, .add "A" ⟨"B", "kyc.vf", "1", .string, none⟩⟩]
+    s.recs = [⟨"B", "kyc.vf", "1", .string, none⟩] ∧
+    refusal (stepS s ⟨{}, .delete "C" "B" "kyc.vf"⟩) = some .perm ∧
+    refusal (stepS s ⟨outer, .delete "C" "B" "kyc.vf"⟩) = some .perm ∧
+    refusal (stepS s ⟨mixed, .delete "C" "B" "kyc.vf"⟩) = some .notfound ∧
+    refusal (stepS s ⟨mixed, .deleteDistinct "A" "B" "kyc.vf" "1"⟩) = some .notfound ∧
+    (runS s [⟨mixed, .update "A" "B" "kyc.vf" "1" .string "2" .string⟩]).recs = [⟨"B", "kyc.vf", "2", .string, none⟩] ∧
+    refusal (stepS s ⟨inner, .update "A" "B" "kyc.vf" "1" .string "2" .string⟩) = some .notfound ∧
+    refusal (stepS s ⟨mixed, .transfer "A" "kyc.vf" "C"⟩) = some .notfound ∧
+    verdict s (.delete "C" "B" "kyc.vf") true { s with recs := [], cnt := [] } = "fail:write_by_non_owner" := by
   decide
 
 /-! ## Non-vacuity -/
